@@ -174,6 +174,9 @@ def run_cases(ctx, res, cases, tmp, keypath, key):
             # ---- direct oracles on the implementation
             # known-finding discriminators: specific declarations; anything else of the same kind is still a violation
             tag = finding_tag(f, v)
+            if r1[0] == "ok" and not tag and F.satisfies(f, unproxy(r1[1])) is False:
+                res.violate("C05:accepted-breaks-declared-constraint:" + f["k"], "a value was accepted although it breaks a constraint the field declares",
+                            dict(case, accepted=F.enc_val(r1[1])))
             if r1[0] == "ok" and not has_custom(f):
                 if r2[0] != "ok":
                     res.violate("C05:idem-reject:" + f["k"] + tag,
